@@ -38,7 +38,7 @@ class Tree:
 
     def __init__(self, sp):
         self.st = {n: {'kind': s.kind, 'parent': s.parent, 'initial': s.initial, 'memory': s.memory} for n, s in sp.states.items()}
-        self.tr = [{'src': t.src, 'tgt': t.tgt, 'event': t.event} for t in sp.trans]
+        self.tr = [{'src': t.src, 'tgt': t.tgt, 'event': t.event, 'rest': None} for t in sp.trans]
 
     def children(self, n):
         return set(x for x, d in self.st.items() if d['parent'] == n)
@@ -85,8 +85,9 @@ def compare(sc, m):
             return 'initial of %r is %r, model %r' % (n, getattr(s, 'initial', None), d['initial'])
         if getattr(s, 'memory', None) != d['memory']:
             return 'memory of %r is %r, model %r' % (n, getattr(s, 'memory', None), d['memory'])
-    got = Counter((t.source, t.target, t.event) for t in sc.transitions)
-    want = Counter((t['src'], t['tgt'], t['event']) for t in m.tr)
+    # generated transitions are told apart by their action text; the ones added by this check by guard and priority
+    got = Counter((t.source, t.target, t.event, (t.guard, t.priority) if t.action is None else None) for t in sc.transitions)
+    want = Counter((t['src'], t['tgt'], t['event'], t['rest']) for t in m.tr)
     if got != want:
         return 'transitions differ: only real %r, only model %r' % (list((got - want).elements())[:3], list((want - got).elements())[:3])
     for t in sc.transitions:
@@ -244,7 +245,18 @@ def run(ch, tier):
             src = pick_name()
             tgt = None if ops.flag(1, 5) else pick_name()
             evn = ops.pick(['ea', 'eb', None])
-            t = model.Transition(src, tgt, event=evn, guard='True' if (tgt is None and evn is None) else None)
+            g_, p_ = ('True' if (tgt is None and evn is None) else None), 0
+            mine = [x for x in objs if x.action is None and any(x is u for u in sc.transitions)]
+            if mine and ops.flag(1, 3):
+                # a twin of a registered transition: same ends and event, only the priority or only the guard differs
+                o_ = ops.pick(mine)
+                src, tgt, evn, g_, p_ = o_.source, o_.target, o_.event, o_.guard, o_.priority
+                if ops.flag(1, 2):
+                    p_ = p_ + ops.pick([1, -1, 5])
+                else:
+                    g_ = ops.pick(['True', 'not False', '1 == 1', '2 > 1'])
+                res.stats['twin_transition_added'] += 1
+            t = model.Transition(src, tgt, event=evn, guard=g_, priority=p_)
             if src not in m.st:
                 expect_err = 'unknown source'
             elif m.st[src]['kind'] not in ('basic', 'compound', 'orthogonal'):
@@ -255,7 +267,7 @@ def run(ch, tier):
             desc = ('add_transition', src, tgt, evn)
 
             def apply_model():
-                m.tr.append({'src': src, 'tgt': tgt, 'event': evn})
+                m.tr.append({'src': src, 'tgt': tgt, 'event': evn, 'rest': (t.guard, t.priority)})
                 objs.append(t)
         elif op == 'remove_transition':
             if not objs:
@@ -263,9 +275,11 @@ def run(ch, tier):
             t = ops.pick(objs)
             call = lambda: sc.remove_transition(t)   # noqa
             desc = ('remove_transition', t.source, t.target, t.event)
-            key = {'src': t.source, 'tgt': t.target, 'event': t.event}
-            if t not in sc.transitions:
+            key = {'src': t.source, 'tgt': t.target, 'event': t.event, 'rest': (t.guard, t.priority) if t.action is None else None}
+            if not any(t is u for u in sc.transitions):
                 expect_err = 'not registered'        # removed together with a state
+                if any(t == u for u in sc.transitions):
+                    continue    # an equal transition is still registered: remove() by equality is documented behaviour, not judged
 
             def apply_model():
                 m.tr.remove(key)
@@ -292,7 +306,7 @@ def run(ch, tier):
                 expect_err = 'unknown new target'
             call = lambda: sc.rotate_transition(t, new_source=ns, new_target=nt)     # noqa
             desc = ('rotate_transition', (t.source, t.target, t.event), ns, nt)
-            key = {'src': t.source, 'tgt': t.target, 'event': t.event}
+            key = {'src': t.source, 'tgt': t.target, 'event': t.event, 'rest': (t.guard, t.priority) if t.action is None else None}
 
             def apply_model():
                 i = m.tr.index(key)
